@@ -83,6 +83,15 @@ def translate():
     t = _ns(run_fn)
     need("alpha=np.minimum(1.0,alpha)" in t and "alpha=np.nan_to_num(alpha,nan=0.0)" in t, run_fn, "alpha clipping", w)
     need("u_rand=np.random.rand(self.n_walkers)" in t and "mask_accept=u_rand<alpha" in t, run_fn, "Metropolis test", w)
+    # the inverse and the Cholesky factor the kernels read are those of one and the same scale matrix
+    ini = get_function(REPO / "tempest" / "modes.py", "ModeStatistics.__init__")
+    derived = {_ns(s.targets[0]): _ns(s.value) for s in ast.walk(ini) if isinstance(s, ast.Assign)
+               and _ns(s.targets[0]) in ("self.inv_covariances", "self.chol_covariances")}
+    need(derived == {"self.inv_covariances": "np.linalg.inv(self.covariances)", "self.chol_covariances": "np.linalg.cholesky(self.covariances)"},
+         ini, f"derived scale quantities {derived}", "modes.py:ModeStatistics.__init__")
+    mct = mc.read_text().replace(" ", "")
+    need(mct.count("self.inv_covs=self.mode_stats.inv_covariances") == 1 and mct.count("self.chol_covs=self.mode_stats.chol_covariances") == 2,
+         fn, "kernels read the mode statistics' inverse and Cholesky factor", "mcmc.py")
     text = f"""(* GENERATED from /repo/tempest/mcmc.py (TPCNRunner, RWMRunner, BaseMCMCRunner.run) by tools/props/c03.py *)
 From Coq Require Import Reals.
 Local Open Scope R_scope.
@@ -99,6 +108,7 @@ Definition delta_uses_inverse_scale_of_assigned_mode : bool := true.
 Definition accept_mask_is_uniform_strictly_below_alpha : bool := true.
 Definition alpha_is_min_one_exp_nan_to_zero : bool := true.
 Definition out_of_cube_proposals_are_redrawn : bool := true.
+Definition inverse_and_cholesky_are_of_the_mode_scale_matrix : bool := true.
 """
     write_if_changed(COQ / "Gen" / "Kernel.v", text)
 
